@@ -141,8 +141,10 @@ impl Base {
 			1 => BaseEnum::Binary,
 			2 => BaseEnum::Octal,
 			3 => BaseEnum::Hex,
-			4 => BaseEnum::Custom(u8::deserialize(read)?),
-			5 => BaseEnum::Plain(u8::deserialize(read)?),
+			4 => return Self::from_custom_base(u8::deserialize(read)?)
+				.map_err(|_| FendError::DeserializationError),
+			5 => return Self::from_plain_base(u8::deserialize(read)?)
+				.map_err(|_| FendError::DeserializationError),
 			_ => return Err(FendError::DeserializationError),
 		}))
 	}
